@@ -673,6 +673,11 @@ func mutateDoc(root *any, seed uint64) bool {
 			return true
 		}
 	}
+	if s.m == nil {
+		// the caller replaces its nil map by a real one
+		s.set(map[string]any{"added": nv})
+		return true
+	}
 	keys := make([]string, 0, len(s.m))
 	for k := range s.m {
 		keys = append(keys, k)
@@ -797,6 +802,20 @@ func RunC15(w *Workload, st *Stats, maxYields uint64) *RunReport {
 				}
 				s1, r1, _ := simrt.MapCounters()
 				evs = append(evs, ev{pol, how, o, s1 - s0, r1 - r0})
+			}
+		}
+		// long reuse: behaviour must not change after N calls on one Expression
+		if strings.Contains(w.Note, "long-reuse") && compiled != nil {
+			simrt.SetPolicy(w.Policies[0])
+			first := callExprSearch(compiled, MustDec(docEnc))
+			for i := 0; i < 140; i++ {
+				simrt.SetPolicy(w.Policies[0])
+				o := callExprSearch(compiled, MustDec(docEnc))
+				if o.Key() != first.Key() {
+					viol = &Violation{Prop: "C15", Class: "nondeterminism", Sig: "nondeterminism",
+						Detail: fmt.Sprintf("%q: call %d on one compiled Expression (same map order, equal documents) returns %s, the first call returned %s", text, i+2, trunc(o.Key(), 300), trunc(first.Key(), 300))}
+					return
+				}
 			}
 		}
 		// dual execution under identical pinned seams: must be exactly equal
